@@ -855,7 +855,9 @@ def main():
                     if wit:
                         full = 'bounded stand-in (proof undecided): oracle %s' % oname
                         case = wit['case']
-                        if any(k['property'] == prop and k['obligation'] == full and k['input'] == case for k in known):
+                        # a finding recorded for the bounded stand-in of this oracle is the same finding when the proof is undecided
+                        plain = 'bounded stand-in: oracle %s' % oname
+                        if any(k['property'] == prop and k['obligation'] in (full, plain) and k['input'] == case for k in known):
                             print('KNOWN-FINDING: property=%s %s input=%s' % (prop, full, case))
                             continue
                         h = hashlib.sha1((full + case).encode()).hexdigest()[:10]
